@@ -38,6 +38,35 @@ CHECKS['C05'] = dict(
     technique='TLA+ operational semantics + monitor invariant, TLC over all executions, claims exported from the real cfg.build',
     design_ref='DESIGN.md sections 3.1-3.3, 5 (C05)', engine='tlc-minipy')
 
+_MP_NOTE = ('Claims are exported by running the real analyses exactly as control_flow.transform does (cfg.build, qual_names, '
+            'activity, reaching_definitions, reaching_fndefs, liveness) on the rendered program; analyzer objects are only '
+            'observed (visit_forward/visit_reverse wrapped). Outside the class, never judged: everything after an implicit '
+            'exception or an exception crossing an activation boundary, steps while an exception propagates through finally. '
+            'Bounded: loop trips <=2, <=10/12 decisions, <=60/80 steps per execution; names are simple identifiers.')
+_MP_TEXT = ('TLC explores ALL executions (every branch-decision vector, loop trips 0..2) of every control-flow skeleton derived by '
+            'spec/MiniPyGen.tla up to the size bound (quick <=4 statements + nested-function skeletons, thorough <=5) and of '
+            'seeded random larger programs, under the operational semantics spec/MiniPy.tla, which is validated against '
+            'CPython on every explored execution in the same run. ')
+CHECKS['C06'] = dict(
+    text=_MP_TEXT + 'spec/ReachDef.tla carries a last-writer monitor: at every read the binding that produced the value must be '
+         'among the DEFINITIONS the real analysis attached to that name occurrence, at every entry of if/for/while/try the '
+         'bound locals must be in DEFINED_VARS_IN, and the exported in/out/gen/kill tables must satisfy the transfer equations.',
+    note=_MP_NOTE, technique='TLA+ operational semantics + last-writer monitor, TLC over all executions, claims from the real analysis',
+    design_ref='DESIGN.md sections 3.3, 5 (C06)', engine='tlc-minipy')
+CHECKS['C07'] = dict(
+    text=_MP_TEXT + 'spec/Liveness.tla remembers per variable the most recent statement (node in/out, statement LIVE_VARS_IN/OUT) '
+         'that failed to report it live since its last write; a later read (also by a called closure) of that value is a '
+         'violation. Zero-trip loops, closures and nonlocal writes are ordinary behaviours. The exported in/out sets must solve '
+         'the liveness equations including the closure term.',
+    note=_MP_NOTE, technique='TLA+ operational semantics + awaiting-read monitor, TLC over all executions, claims from the real analysis',
+    design_ref='DESIGN.md sections 3.3, 5 (C07)', engine='tlc-minipy')
+CHECKS['C08'] = dict(
+    text=_MP_TEXT + 'spec/Activity.tla checks the dynamic clause: the cells read / rebound / unbound by each executed node are within '
+         'the read / modified / deleted sets of the scope the real activity analysis attached to that node.',
+    note=_MP_NOTE + ' The static clause (bound/global/nonlocal/param/free sets vs. CPython symtable) is being added (Scoping.tla).',
+    technique='TLA+ operational semantics + per-step read/write monitor, TLC over all executions',
+    design_ref='DESIGN.md sections 3.3, 5 (C08)', engine='tlc-minipy')
+
 NOT_CLAIMED = {}
 
 
